@@ -33,6 +33,7 @@ warnings.filterwarnings("ignore")
 
 import common
 from common import Check, LEAN, lean_bool, lean_list, lean_str, write_if_changed
+import c19_fnmatrix as fnmatrix
 
 META = {
     "ready": True,
@@ -45,7 +46,11 @@ META = {
                   "count, arbitrary keyword names - whether the substitute accepts every call the original "
                   "accepts), binds_abs (abstraction lemma). Per run: gen_flags_exact, gen_unflagged_covered, "
                   "gen_flagged_witness over every (original, substitute) signature pair of the installed "
-                  "libraries (decide +kernel). Binding only; the meaning of forwarded arguments is validated "
+                  "libraries (decide +kernel). FunctionPlugin capture key (Props/C19Key): capture_key_injective, "
+                  "function_key_injective, registry_own_arguments (in any sequence of @onnx_function call sites every "
+                  "site gets the body traced for its own keyword values), with the type-name key refuted "
+                  "(type_name_key_not_injective); tied per run to the exported models of the argument matrix. "
+                  "Binding and function sharing only; the meaning of forwarded arguments is validated "
                   "by execution (ORT vs eager JAX) on sampled calls.",
     "level_note": "Trusted: Lean kernel + 3 standard axioms; inspect.signature as the description of what a "
                   "callable binds (substitutes inspected with follow_wrapped=False); the harness extraction. "
@@ -54,12 +59,15 @@ META = {
                   "positional-only names passed by keyword next to **kwargs). 'No argument silently ignored' "
                   "is validated, not proved: a systematic parameter sweep (every parameter of every substituted "
                   "function with a testcase, non-default values, positional/keyword/mixed forms, fusion-triggering "
-                  "producers; values and dtypes vs eager JAX) + an AST pass. Uncovered forms of the unchanged tree "
+                  "producers; values and dtypes vs eager JAX) + an AST pass. The @onnx_function argument matrix (24 value kinds x keyword/positional x two call sites in one "
+                  "export, plain function and nnx.Module) is validation by execution plus a one-sided tie of the "
+                  "observed function sharing to the Lean capture-key model (trusted: hash(bytes) collision-free). "
+                  "Uncovered forms of the unchanged tree "
                   "are genuine defects listed in known_findings.d/C19.json keyed by (target, call form).",
     "design_ref": "DESIGN.md §3 C19",
 }
 
-MODS = ["J2O.Props.C19", "J2O.GenProps.C19"]
+MODS = ["J2O.Props.C19", "J2O.Props.C19Key", "J2O.GenProps.C19"]
 FRESH = "\0fresh"
 K = inspect.Parameter
 KIND = {K.POSITIONAL_ONLY: 0, K.POSITIONAL_OR_KEYWORD: 1, K.VAR_POSITIONAL: 2, K.KEYWORD_ONLY: 3,
@@ -887,6 +895,72 @@ def _what(pair, rep, out) -> str:
 FAIL_STATUS = ("binding_typeerror", "other_typeerror", "other_error")
 
 
+def _matrix_tie(matrix: dict, driver) -> None:
+    """Lean's verdict (capture keys equal? classes) for the two keyword values of every two-call-site export."""
+    ans = driver([t["line"] for t in matrix["tie"]]) if matrix["tie"] else []
+    for t, a in zip(matrix["tie"], ans):
+        f = a.split()
+        if len(f) != 4:
+            raise RuntimeError(f"C19 driver: bad answer {a!r} for {t['line']!r}")
+        t["model"] = {"keys_equal": f[0] == "1", "type_name_keys_equal": f[1] == "1", "class_a": f[2], "class_b": f[3]}
+
+
+def judge_matrix(chk: Check, matrix: dict) -> int:
+    """Oracle (eager JAX vs ORT) and one-sided key tie of the FunctionPlugin argument matrix."""
+    unlisted = 0
+    stats: dict = {}
+    tie_of = {id(t["rec"]): t for t in matrix["tie"]}
+    for rec in matrix["results"]:
+        st, num = rec["status"], rec.get("numeric")
+        tag = st if st != "exported" else f"exported:{num}"
+        stats[tag] = stats.get(tag, 0) + 1
+        chk.count({"fnmatrix": rec["target"], "class": rec["class"], "form": rec["form"], "program": rec["program"],
+                   "status": st, "numeric": num}, nontrivial=st == "exported")
+        t = tie_of.get(id(rec))
+        shared_wrongly = False
+        if t is not None and "model" in t:
+            shared = rec["functions_used"] == 1
+            keq = t["model"]["keys_equal"]
+            rec["model"] = t["model"]
+            stats["tie_checked"] = stats.get("tie_checked", 0) + 1
+            if shared and not keq:
+                shared_wrongly = True
+                stats["tie_shared_where_model_keys_differ"] = stats.get("tie_shared_where_model_keys_differ", 0) + 1
+            elif keq and not shared:
+                stats["tie_split_where_model_keys_equal"] = stats.get("tie_split_where_model_keys_equal", 0) + 1
+        outcome = None
+        if st == "export_error":
+            outcome = rec["outcome"]
+        elif st == "exported" and num in ("DISAGREE", "ort_type_error"):
+            outcome = num
+        call = {"kw2": "g(x, p=a) + 2*g(x, p=b)", "pos2": "g(x, a) + 2*g(x, b)",
+                "kwswap": "g(x, p=a, q=b) + 2*g(x, p=b, q=a)", "kw1": "g(x, p=a) ; g(x, p=b) in two exports",
+                "pos1": "g(x, a) ; g(x, b) in two exports", "mixed": "g(x, a, q=b) + 2*g(x, b, q=a)"}[rec["form"]]
+        replay = {"matrix": {k: rec[k] for k in ("target", "class", "form", "program")}, "a": rec["a"], "b": rec["b"],
+                  "program": f"@onnx_function {rec['target']} g(x, p=None, q=None); {call}", "input_x": matrix["x"],
+                  "observation": {k: v for k, v in rec.items() if k not in ("target", "class", "form", "program")},
+                  "how": "harness/vcheck.py C19 --replay <this file>"}
+        if outcome is not None:
+            key = fnmatrix.finding_key(rec["target"], rec["class"], rec["form"], outcome)
+            what = (f"@onnx_function {rec['target']} g(x, p=None, q=None): {call} with a={rec['a']}, b={rec['b']} "
+                    f"({rec['class']}) works outside conversion but the export gives {outcome}: "
+                    f"{rec.get('error') or ''}"
+                    + (f" onnx={rec.get('ort')} jax={rec.get('jax')}" if "ort" in rec else "")
+                    + (f"; the two call sites share ONE function body although their capture keys differ in the "
+                       f"model (capture_key_injective)" if shared_wrongly else ""))[:500]
+            if not chk.finding(key, what, replay):
+                unlisted += 1
+        elif shared_wrongly:
+            chk.violation({**replay, "note": "the two call sites share one ONNX function although the model's capture "
+                                             "keys differ (broken correspondence with J2O.C19.Key.captureKey); the "
+                                             "exported model still agrees with eager JAX on this input"},
+                          name=f"fnplugin-key-tie-{rec['target']}-{rec['class']}-{rec['form']}", no_failing_input=True)
+            unlisted += 1
+    chk.info("onnx_function_argument_matrix", {**stats, "exports": len(matrix["results"]), "wall_s": matrix["wall_s"]})
+    chk.log(f"@onnx_function argument matrix: {stats}")
+    return unlisted
+
+
 def run(chk: Check) -> None:
     rng = common.Rng(chk.seed)
     thorough = chk.tier == "thorough"
@@ -912,9 +986,12 @@ def run(chk: Check) -> None:
     #      (one Lean driver invocation for all three)
     drv = OneShotDriver()
     n_val = 750 if not thorough else 8000
+    matrix = fnmatrix.run_matrix(chk, chk.seed, thorough)
+    chk.log(f"@onnx_function argument matrix: {len(matrix['results'])} exports in {matrix['wall_s']} s")
     steps = [lambda: validate_model(chk_or_null[0], common.Rng(chk.seed), n_val, drv),
              lambda: validate_live(chk_or_null[0], live, drv),
-             lambda: _forms_from_driver(live, drv)]
+             lambda: _forms_from_driver(live, drv),
+             lambda: _matrix_tie(matrix, drv)]
     chk_or_null = [_NullCheck()]
     for st in steps:                       # recording pass
         try:
@@ -1017,6 +1094,8 @@ def run(chk: Check) -> None:
                                f"@onnx_function module with __call__(self, x, flag=True) branching on flag, called "
                                f"with {name}: {res}", {"probe": fp}):
                 unlisted += 1
+
+    unlisted += judge_matrix(chk, matrix)
 
     if live["errors"]:
         chk.violation({"extraction_errors": live["errors"],
@@ -1591,6 +1670,16 @@ def replay(path: str) -> int:
     rep = json.loads(open(path).read())
     print(json.dumps(rep, indent=1, default=str)[:2500])
     key = rep.get("finding_key", {})
+    if "matrix" in rep:
+        m = rep["matrix"]
+        out = fnmatrix.run_matrix(None, int(rep.get("seed", 0)), rep.get("tier") == "thorough",
+                                  only=(m["target"], m["class"], m["form"]))
+        bad = [r for r in out["results"]
+               if r["status"] == "export_error" or r.get("numeric") in ("DISAGREE", "ort_type_error")
+               or (r.get("functions_used") == 1 and rep.get("observation", {}).get("model", {}).get("keys_equal") is False)]
+        print("now:", [{k: r.get(k) for k in ("status", "numeric", "outcome", "error", "functions_used", "ort", "jax")}
+                       for r in out["results"]])
+        return 1 if bad else 0
     if key.get("kind") == "meaning":
         live = collect_pairs()
         sink = SweepSink()
